@@ -1032,11 +1032,19 @@ impl Compiler {
         statements: &[Statement],
     ) -> Result<(), JsError> {
         for stmt in statements {
-            if let Statement::FunctionDeclaration(func) = stmt {
-                self.compile_function_declaration(func)?;
-                self.hoisted_functions
-                    .insert((func.span.start, func.span.end));
-            }
+            // `function f() {}`, and the function of `export function f() {}` (the export itself
+            // is published where the statement stands)
+            let func = match stmt {
+                Statement::FunctionDeclaration(func) => func,
+                Statement::Export(export) if !export.default => match export.declaration.as_deref() {
+                    Some(Statement::FunctionDeclaration(func)) => func,
+                    _ => continue,
+                },
+                _ => continue,
+            };
+            self.compile_function_declaration(func)?;
+            self.hoisted_functions
+                .insert((func.span.start, func.span.end));
         }
         Ok(())
     }
